@@ -1,4 +1,4 @@
-import Wx.Glob.IgnoreFilter
+import Wx.Glob.IgnoreFilterC
 /-! Spike: watchexec-filterer-globset check_event (+ the ignore-files layer). -/
 namespace Sp.GS
 open Sp.IF Sp.Glob
@@ -20,7 +20,7 @@ structure GF where
 /-- IgnoreFilterer::check_event -/
 def igfCheck (f : Filter) (paths : List PTag) : Bool :=
   paths.foldl (fun pass p =>
-    match f.matchPath p.path p.isDir with
+    match f.matchFix p.path p.isDir with
     | .none => pass
     | .ignore _ fr => if compPrefix fr p.path then false else pass
     | .whitelist _ _ => true) true
